@@ -51,7 +51,7 @@ package kgo
 //@ spec ringIdx(head int, c int, i int) int = ite(head + i < c, head + i, head + i - c)
 
 //@ monitor (r *ring) mu
-//@   prop C30
+//@   prop C30 C22
 //@   cond cond
 //@   protects r.elems, r.head, r.l, r.dead, elems(r.elems[:cap(r.elems)])
 //@   invariant [shape] (cap(r.elems) == 0 && len(r.elems) == 0 && r.head == 0 && r.l == 0) || (len(r.elems) == cap(r.elems) && cap(r.elems) >= 8 && 0 <= r.head && r.head < cap(r.elems) && 0 <= r.l && r.l <= cap(r.elems))
@@ -61,7 +61,7 @@ package kgo
 // resize (called with the lock held): the new buffer has exactly the requested capacity, head is 0, the length
 // is unchanged, and the queued elements are copied in queue order to positions 0..l-1.
 //@ func (r *ring[T]) resize(newCap int)
-//@   prop C30
+//@   prop C30 C22
 //@   nopanic
 //@   requires (cap(r.elems) == 0 && len(r.elems) == 0 && r.head == 0 && r.l == 0) || (len(r.elems) == cap(r.elems) && cap(r.elems) >= 8 && 0 <= r.head && r.head < cap(r.elems) && 0 <= r.l && r.l <= cap(r.elems))
 //@   requires newCap >= 8 && newCap >= r.l && newCap <= 2147483648
@@ -73,7 +73,7 @@ package kgo
 // length grows by one, `first` is true exactly when the ring was empty (the caller then starts the worker), and
 // the element is stored at the tail position. It blocks only while the ring is bounded, full and alive.
 //@ func (r *ring[T]) doPush(elem T, wait bool) (first bool, dead bool)
-//@   prop C30
+//@   prop C30 C22
 //@   nopanic
 //@   site call Wait#0 assert [blocks-only-while-full-and-alive] r.maxLen > 0 && r.l >= r.maxLen && !r.dead
 //   (listed assumption: a ring never holds 2^30 elements - it would not fit in memory)
@@ -88,7 +88,7 @@ package kgo
 // one (circularly), the length shrinks by one, `more` is true exactly when elements remain (the worker continues
 // iff more) and `next` is then the element at the new head.
 //@ func (r *ring[T]) dropPeek() (next T, more bool, dead bool)
-//@   prop C30
+//@   prop C30 C22
 //@   nopanic
 //@   ensures [dead-flag] dead == atcrit(r.dead) && r.dead == atcrit(r.dead)
 //@   ensures [empty-stays-empty] atcrit(r.l) == 0 ==> (!more && r.l == 0)
